@@ -633,7 +633,7 @@ pub fn plan_for(id: &str, tier: &str) -> Option<Plan> {
             p.profile.w_kind = [30, 25, 25, 12, 8];
             p.profile.valid_add_pct = 40;
             p.required = vec!["frame:GetChildVersion:found", "frame:GetChildVersion:gone", "frame:GetChildVersion:not-found", "frame:GetSnapshot:snapshot", "frame:AddVersion:conflict", "frame:AddSnapshot:declined", "frame:refused:add-version with empty body from a never-seen client", "frame:refused:add-snapshot with empty body", "frame:refused:request to an unknown route"];
-            p.rule = "the complete state of all clients (trait-level closure over every id ever seen, plus all SQL rows for SQLite) is dumped before and after every GetChildVersion, GetSnapshot, conflicting AddVersion and AddSnapshot the acceptance rule declines, and (HTTP subjects) around refused requests (empty body, wrong content type, missing client id, malformed path id, unknown route; from known and never-seen clients); any difference is a violation.";
+            p.rule = "the complete state of all clients (trait-level closure over every id ever seen, plus all SQL rows for SQLite) is dumped before and after every GetChildVersion, GetSnapshot, conflicting AddVersion and AddSnapshot the acceptance rule declines, and (HTTP subjects) around refused requests (empty body, wrong content type, missing client id, malformed path id, unknown route; from known and never-seen clients); any difference is a violation. Concurrent part: the E2 scenarios with two overlapping AddSnapshots (latest / older version, pairs and triples with GetSnapshot) under the controlled scheduler: the upload that every one-at-a-time order declines must not change the state.";
         }
         "C12H" => {
             p.property = "C12";
